@@ -92,7 +92,7 @@ def run_deductive(prop: str, tier: str) -> dict | None:
 
 
 def write_replay(prop: str, payload: dict) -> str:
-    d = os.path.join(VERIF, "replays", prop)
+    d = os.path.join(os.environ.get("VERIF_REPLAY_DIR") or os.path.join(VERIF, "replays"), prop)
     os.makedirs(d, exist_ok=True)
     h = hashlib.blake2b(json.dumps(payload, sort_keys=True, default=str).encode(), digest_size=6).hexdigest()
     p = os.path.join(d, f"{h}.json")
